@@ -409,7 +409,7 @@ PROPS["C08"] = dict(
                  "once any map/accept stage ran on worker goroutines the read-ahead is timing dependent: see finding F27"],
     jobs=[dict(name="c08", run="^TestPropC08$", kind="rapid", shards=16, checks={"quick": 40000, "thorough": 2000000},
                guard={"quick": 1200, "thorough": 10800})],
-    min_class_fraction={"pipeline_not_consumed": 0.08, "failing_element_behind_window": 0.2, "counter_ran_on_worker_goroutines": 0.02, "demand_exact": 0.3},
+    min_class_fraction={"pipeline_not_consumed": 0.08, "failing_element_behind_window": 0.1, "failing_element_directly_behind_decisive_prefix": 0.1, "counter_ran_on_worker_goroutines": 0.02, "demand_exact": 0.3},
 )
 
 
